@@ -14,7 +14,7 @@ PROPERTY_ID = "C03"
 LEVEL = "exploration"
 RULE = (
     "Hypothesis stateful machine per solver object: init draws dim in {2,3}, every extent "
-    "independently (2..20 in 2-D, 2..9 in 3-D quick; 2..48 / 2..16 thorough), x_range over 4 decades, "
+    "independently (2..20 in 2-D, 2..9 in 3-D quick; 2..48 / 2..16 thorough), x_range over 4 decades (a third of the cases over 12 decades, 1e-8..1e4), "
     "precision, thread count; rules solve(rhs)/vector_solve(rhs3)/scribble(buffer,value)/"
     "impulse_pair(a,b)/second_solver(factor: another live solver object of the same shape and precision "
     "but another domain size)/switch_solver; after every solve the result is compared with the O(N^2) direct aperiodic "
@@ -53,7 +53,8 @@ def _init_strategy(tier):
         return {
             "dim": dim,
             "shape": shape,
-            "x_range": draw(gen.nice_or_log(1e-2, 1e2, nice=(1.0,))),
+            # domain lengths from micro-scale set-ups (spacing below the machine epsilon of single precision) to kilometres
+            "x_range": draw(st.one_of(gen.nice_or_log(1e-2, 1e2, nice=(1.0,)), gen.nice_or_log(1e-2, 1e2, nice=(1.0,)), gen.log_uniform(1e-8, 1e4))),
             "dtype": draw(gen.precisions),
             "threads": draw(st.sampled_from([1, 2, 4])),
         }
